@@ -307,8 +307,6 @@ def remove_nodes(source: str, nodes: Iterable[ast.AST], root: ast.Module) -> str
     for i, char, keep in zip(range(len(source)), source, keep_mask):
         if i == next_pass:
             chars.extend("pass\n")
-        elif next_pass < i < next_pass + 3:
-            continue
         else:
             if i > next_pass:
                 next_pass = heapq.heappop(passes)
